@@ -286,6 +286,12 @@ ApiModel buildApiModel(uint64_t seed, int variant, const ApiOpts* optsIn) {
 			nif.AssignExtraData(nif.GetRootNode(), std::move(bsx));
 		}
 	}
+	if (o.tangents) {
+		for (auto& name : M.shapeNames)
+			if (auto sh = nif.FindBlockByName<NiShape>(name))
+				if (sh->HasNormals() && sh->HasUVs() && sh->GetNumTriangles() > 0) nif.CalcTangentsForShape(sh);
+		desc << " +tangents";
+	}
 	if (o.texturing && (ver.IsOB() || ver.IsFO3())) {
 		Rng trng(mix(seed, 0x7E87));
 		for (auto& name : M.shapeNames)
@@ -345,6 +351,43 @@ std::string useObject(NifFile& n, Rng& rng) {
 			return "previously created (SSE/FO4, 4 blocks)";
 		}
 	}
+}
+
+int permutePartitionVertexMaps(NifFile& nif, Rng& rng) {
+	int changed = 0;
+	auto& hdr = nif.GetHeader();
+	for (uint32_t b = 0; b < hdr.GetNumBlocks(); b++) {
+		auto sp = hdr.GetBlock<NiSkinPartition>(b);
+		if (!sp) continue;
+		for (auto& p : sp->partitions) {
+			size_t n = p.vertexMap.size();
+			if (n < 2) continue;
+			if (p.hasVertexWeights && p.vertexWeights.size() != n) continue;
+			if (p.hasBoneIndices && p.boneIndices.size() != n) continue;
+			std::vector<uint16_t> perm(n), posNew(n);
+			for (size_t i = 0; i < n; i++) perm[i] = (uint16_t)i;
+			for (size_t i = n; i > 1; i--) std::swap(perm[i - 1], perm[rng.below((uint32_t)i)]);
+			for (size_t i = 0; i < n; i++) posNew[perm[i]] = (uint16_t)i;
+			auto vm = p.vertexMap;
+			auto vw = p.vertexWeights;
+			auto bi = p.boneIndices;
+			for (size_t i = 0; i < n; i++) {
+				p.vertexMap[i] = vm[perm[i]];
+				if (p.hasVertexWeights) p.vertexWeights[i] = vw[perm[i]];
+				if (p.hasBoneIndices) p.boneIndices[i] = bi[perm[i]];
+			}
+			if (sp->bMappedIndices) {
+				bool ok = true;
+				for (auto& t : p.triangles) if (t.p1 >= n || t.p2 >= n || t.p3 >= n) ok = false;
+				for (auto& st : p.strips) for (auto x : st) if (x >= n) ok = false;
+				if (!ok) { p.vertexMap = vm; p.vertexWeights = vw; p.boneIndices = bi; continue; }
+				for (auto& t : p.triangles) { t.p1 = posNew[t.p1]; t.p2 = posNew[t.p2]; t.p3 = posNew[t.p3]; }
+				for (auto& st : p.strips) for (auto& x : st) x = posNew[x];
+			}
+			changed++;
+		}
+	}
+	return changed;
 }
 
 void addTexturingProperty(NifFile& nif, NiShape* shape, Rng& rng, const std::vector<std::string>& paths) {
